@@ -1169,6 +1169,73 @@ func TestVerifHook(t *testing.T) {
 					break
 				}
 			}
+			/* two opens in quick succession: the second key arrives before the program of the first has been
+			   started; each program must still get its own link.  Once with the second key handled before the
+			   goroutine of the first open gets to run at all (one processor), once as it comes. */
+			for round := 0; round < 2 && len(probes) >= 2; round++ {
+				a, b := probes[(hi+round)%len(probes)], probes[(hi+round+1)%len(probes)]
+				if a.link == b.link {
+					continue
+				}
+				prev := 0
+				if round == 0 {
+					prev = runtime.GOMAXPROCS(1)
+				}
+				panicked, what, wedged := v.press("burst", []byte(a.keys+b.keys))
+				if round == 0 {
+					runtime.GOMAXPROCS(prev)
+				}
+				raw := []verifkit.M{}
+				/* wait for both records without taking the file away under a program that is still writing */
+				for waited := 0; waited < 600 && !panicked && !wedged; waited++ {
+					data, _ := os.ReadFile(v.dump)
+					if strings.Count(string(data), "\n") >= 2 {
+						break
+					}
+					time.Sleep(5 * time.Millisecond)
+				}
+				v.settle(3 * time.Second)
+				time.Sleep(20 * time.Millisecond)
+				raw = append(raw, v.hookCalls()...)
+				mentions := func(c verifkit.M, link string) bool {
+					if c["stdin"] == link {
+						return true
+					}
+					for _, arg := range c["argv"].([]string) {
+						if arg == link {
+							return true
+						}
+					}
+					return false
+				}
+				for _, p := range []probe{a, b} {
+					/* the call that carries this link, if there is one; otherwise whichever is left */
+					pick := -1
+					for i, c := range raw {
+						if mentions(c, p.link) {
+							pick = i
+							break
+						}
+					}
+					if pick < 0 && len(raw) > 0 {
+						pick = 0
+					}
+					calls := []verifkit.M{}
+					if pick >= 0 {
+						c := raw[pick]
+						raw = append(raw[:pick], raw[pick+1:]...)
+						calls = append(calls, verifkit.M{"argv": append([]string{c["argv0"].(string), "--verif-hook"}, c["argv"].([]string)...), "stdin": c["stdin"]})
+					}
+					ev := verifkit.M{"ev": "hook", "hook": hook, "link": p.link, "mt": p.mt, "calls": calls, "keys": a.keys + b.keys, "burst": true, "panic": panicked || wedged}
+					if panicked {
+						ev["what"] = what
+					}
+					out.Emit(ev)
+				}
+				if panicked || wedged {
+					break
+				}
+			}
 		}
 	}
 }
